@@ -175,7 +175,7 @@ func checkC02(w *World, run *simrt.Run) {
 
 // conversations are generated from a small seed so that cut offsets can be enumerated per conversation
 func genC03(r *simrt.Rand, tier string, idx uint64) *Plan {
-	nconv := uint64(8)
+	nconv := uint64(32)
 	conv := idx % nconv
 	point := idx / nconv
 	cr := simrt.NewRand(simrt.Mix(0xC03, conv))
@@ -186,6 +186,7 @@ func genC03(r *simrt.Rand, tier string, idx uint64) *Plan {
 		p.Net.FragPermille = 400
 	}
 	p.Net.SilentPipe = r.Bool()
+	p.Net.ResetAsTimeout = r.Chance(1, 3) // the reader's error is not one the framing layer turns into io.EOF
 	p.Servers = p.Servers[:1]
 	p.Conns = []ConnCfg{genConn(cr, 1)}
 	p.Conns[0].DirectSet = genDirectSet(cr)
